@@ -417,6 +417,22 @@ pub fn gen_widestage(rng: &mut Rng) -> Vec<Reg> {
     out
 }
 
+/// "saturated": a stage whose groups ALL reach the join limit (the heaviest group can never grow, so this needs three groups
+/// and a particular order of running-time hints), then a few systems that conflict with nothing or with one group
+pub fn gen_saturated(rng: &mut Rng) -> Vec<Reg> {
+    let mut out = Vec::new();
+    let mut tag = 0u32;
+    let mut sys = |res: u32, time: u8, out: &mut Vec<Reg>| { tag += 1; out.push(Reg::Sys { tag, name: format!("s{}", tag), deps: vec![], reads: vec![], writes: vec![res], time, kind: SysKind::Dynamic }); };
+    // groups A (5), B (1), C (1); B joins +1 +1 +3, C joins +1 +1 +5, A joins +1 +1 +1
+    for (res, time) in [(1u32, 5u8), (2, 1), (3, 1), (2, 1), (2, 1), (2, 3), (3, 1), (3, 1), (3, 5), (1, 1), (1, 1), (1, 1)] { sys(res, time, &mut out); }
+    let k = 1 + rng.below(4);
+    for i in 0..k {
+        let res = if rng.chance(2, 3) { 10 + i as u32 } else { 1 + rng.below(3) as u32 };
+        sys(res, 1 + rng.below(5) as u8, &mut out);
+    }
+    out
+}
+
 /// "funnel": many systems conflicting on few resources with skewed hints, so that groups
 /// fill up to the join limit and the balance heuristic flips
 pub fn gen_funnel(rng: &mut Rng) -> Vec<Reg> { gen_funnel_n(rng, 60) }
